@@ -582,6 +582,9 @@ def unk(e):
     return ("unk", astx.show(e, 80))
 
 
+_STATIC_STACK = []
+
+
 def to_term(e, ctx):
     """Convert an AST expression into a term (never raises; unmodelled parts become ('unk', text))."""
     _CUR["ctx"] = ctx
@@ -622,6 +625,18 @@ def to_term(e, ctx):
                 return c(NPOS)
             if n == "digits" and "numeric_limits" in e.get("qual", ""):
                 return var("Digits", "st")
+            # a static constexpr member of the function's own class: its initialiser (num_words = (Bits + w - 1) / w)
+            if not e.get("qual") and ctx.db is not None and ctx.func.get("record") and len(_STATIC_STACK) < 4 and n not in _STATIC_STACK:
+                rec = ctx.db.record(ctx.func["record"])
+                for sm in (rec or {}).get("statics", []) or []:
+                    if sm.get("n") == n and sm.get("init") is not None:
+                        _STATIC_STACK.append(n)
+                        try:
+                            t = to_term(sm["init"], ctx)
+                        finally:
+                            _STATIC_STACK.pop()
+                        if not has_unknown(t):
+                            return t
             return ("unk", (e.get("qual", "") + n))
         return unk(e)
     if k == "mem":
